@@ -364,13 +364,10 @@ inline bool XMLDateTime::isNormalized() const
 
 inline int XMLDateTime::getRetVal(int c1, int c2)
 {
-    if ((c1 == LESS_THAN    && c2 == GREATER_THAN) ||
-        (c1 == GREATER_THAN && c2 == LESS_THAN)      )
-    {
-        return INDETERMINATE;
-    }
-
-    return ( c1 != INDETERMINATE ) ? c1 : c2;
+    // c1, c2: against the other value taken at +14:00 and at -14:00 (3.2.7.4).
+    // The order is determinate only if both agree; exactly 14 hours apart
+    // (one of them EQUAL) is indeterminate as well.
+    return ( c1 == c2 ) ? c1 : INDETERMINATE;
 }
 
 }
